@@ -58,6 +58,11 @@ def itemsKids (stock : Bool) : List (Str × Str) → List Node
 def cellKids (stock : Bool) (head : Str) (items : List (Str × Str)) : List Node :=
   chunk stock (normEol head) ++ itemsKids stock items
 
+/-- an attribute value after `insert_xpaths`: the literal chunks with each reference's xpath in its place -/
+def itemsAttr : List (Str × Str) → Str
+  | [] => []
+  | (v, t) :: rest => v ++ (t ++ itemsAttr rest)
+
 /-- `${` occurs in the string -/
 def hasDollarBrace : Str → Bool
   | '$' :: '{' :: _ => true
